@@ -113,6 +113,9 @@ def readIdentifier (s : S) : Res :=
         match s.at s.position with
         | none => .panic
         | some theByte =>
+          -- a raw newline as the byte of the literal is counted (before the second `read_char`, on the legal and the
+          -- illegal path alike; the `read_until_quote`-style tail below counts nothing)
+          let s := if theByte == '\n' then { s with line := s.line + 1 } else s
           let s := s.readChar
           if s.ch == '\'' && theByte.toNat < 128 then
             let s := s.readChar
